@@ -29,6 +29,11 @@ class VSock:
         self.fail_send = None
         self.sent_log = None      # optional list of bytes objects handed to send()
 
+    @property
+    def _closed(self):
+        # real sockets expose this; Transport.stop_thread() reads it
+        return self.closed
+
     # -- socket API used by paramiko -------------------------------------------------------
     def settimeout(self, t):
         self.timeout = t
